@@ -240,10 +240,16 @@ def _struct_cases(tier):
                         ("ij,jk,kl->il", [("i", "j"), ("j", "k"), ("k", "l")]), ("ijk->kji", [("i", "j", "k")]), ("ij->", [("i", "j")]), ("ij->j", [("i", "j")]), ("i,j->ij", [("i",), ("j",)]),
                         ("...->...", [("a", "b")]), ("a...b,b...->a...", [("a", "c", "b"), ("b", "c")]), ("...a,...a->...", [("a",), ("c", "a")]), ("ij...,jk...->ik...", [("i", "j"), ("j", "k", "c", "d")])):
         C.append((f"einsum('{sub}'){shapes}", "einsum", [("lit", sub)] + [A(*sh) for sh in shapes], {}, tuple(range(1, len(shapes) + 1))))
+    for sub, shapes in (("ij,ij->ij", [("i", "j"), ("i2", "j")]), ("ij,ij->ij", [("i", "j"), ("i", "j2")]), ("...ij,...jk->...ik", [("b", "i", "j"), ("b2", "j", "k")]),
+                        ("i,i->i", [("i",), ("i2",)]), ("ij,jk->ik", [("i", "j"), ("j2", "k")])):
+        C.append((f"einsum('{sub}' bcast){shapes}", "einsum", [("lit", sub)] + [A(*sh) for sh in shapes], {}, tuple(range(1, len(shapes) + 1))))
     for lab, spec_ in (("list-form", [A("i", "j"), ("lit", [0, 1]), A("j", "k"), ("lit", [1, 2]), ("lit", [0, 2])]),
                        ("list-form ellipsis-mid", [A("i", "c", "j"), ("lit", [0, Ellipsis, 1]), A("j", "k"), ("lit", [1, 2]), ("lit", [0, Ellipsis, 2])]),
                        ("list-form ellipsis-mid bcast", [A("i", "j"), ("lit", [0, Ellipsis, 1]), A("i", "c", "j"), ("lit", [0, Ellipsis, 1]), ("lit", [0, Ellipsis])]),
                        ("list-form ellipsis-tail bcast2", [A("i", "j"), ("lit", [0, 1, Ellipsis]), A("j", "k", "c", "d"), ("lit", [1, 2, Ellipsis]), ("lit", [0, 2, Ellipsis])]),
+                       ("list-form ellipsis-tail rank-diff", [A("i", "j"), ("lit", [0, Ellipsis]), A("i", "c", "j"), ("lit", [0, Ellipsis]), ("lit", [0, Ellipsis])]),
+                       ("list-form labelled bcast", [A("i", "j"), ("lit", [0, 1]), A("i2", "j"), ("lit", [0, 1]), ("lit", [0, 1])]),
+                       ("list-form contracted bcast", [A("i", "j"), ("lit", [0, 1]), A("j2", "k"), ("lit", [1, 2]), ("lit", [0, 2])]),
                        ("list-form ellipsis-head bcast2", [A("i", "j"), ("lit", [Ellipsis, 0, 1]), A("c", "d", "j", "k"), ("lit", [Ellipsis, 1, 2]), ("lit", [Ellipsis, 0, 2])])):
         C.append((f"einsum({lab})", "einsum", spec_, {}, (0, 2)))
     C.append(("tensordot(default)", "tensordot", [A("n", "k", "l"), A("k", "l", "m")], {}, (0, 1)))
